@@ -4,7 +4,8 @@ import QipVerif.Model.Grid
 /-! Driver for the grid/resampling model (C14).  Rationals are `p/q` or `p`; `-` is the empty list.
 
 * `tlist tol=r grids=<g>!<g>…`                   → `ok t,t,…` | `none`
-* `fill tol=r [zl=1] oldt=<g> oldc=<g> full=<g>` (zl=1: repaired padding; likewise `coeffs`; `readshape … ndmin=2`)
+* `fill tol=r [zl=1] [cu=1] oldt=<g> oldc=<g> full=<g>` (zl=1: repaired padding; cu=1: the index catches up over several
+          slots, fixes/C14-7; likewise `coeffs`; `readshape … ndmin=2`)
           → `ok c,c,…` | `err index`
 * `coeffs tol=r chans=<chan>!<chan>…`             → `ok <T>|<row>!<row>…` | `err <kind>`
      `<chan>` = `n` | `b:0` | `b:1` | `b:1:<g>` | `a:<g>:<g>`
@@ -51,14 +52,14 @@ def step (line : String) : String :=
   | some "fill" =>
     match fRat? fs "tol", (fStr? fs "oldt").bind g?, (fStr? fs "oldc").bind g?, (fStr? fs "full").bind g? with
     | some tol, some ot, some oc, some full =>
-      match fillV (fNat? fs "zl" = some 1) tol ot oc full with
+      match fillVW (fNat? fs "zl" = some 1) (fNat? fs "cu" = some 1) tol ot oc full with
       | .error e => "err " ++ errName e
       | .ok r => "ok " ++ showRats r
     | _, _, _, _ => "bad-op"
   | some "coeffs" =>
     match fRat? fs "tol", (fStr? fs "chans").bind (fun s => (s.splitOn "!").mapM chanP?) with
     | some tol, some chans =>
-      match fullCoeffsV (fNat? fs "zl" = some 1) tol chans with
+      match fullCoeffsVW (fNat? fs "zl" = some 1) (fNat? fs "cu" = some 1) tol chans with
       | .error e => "err " ++ errName e
       | .ok (T, rows) => "ok " ++ showRats T ++ "|" ++ "!".intercalate (rows.map showRats)
     | _, _ => "bad-op"
